@@ -85,8 +85,12 @@ fn set_env(c: &Case) {
     set("RWS_CONFIG_CORS_ALLOW_METHODS", Some(c.methods.join(",")));
     set("RWS_CONFIG_CORS_ALLOW_HEADERS", Some(c.headers.join(",")));
     set("RWS_CONFIG_CORS_EXPOSE_HEADERS", Some(c.expose.join(",")));
-    set("RWS_CONFIG_CORS_ALLOW_CREDENTIALS", Some(c.credentials.map(|b| b.to_string()).unwrap_or_default()));
+    // credentials not configured: in a third of those cases (by the case's other fields) the variable is an empty string, otherwise it is absent and gets
+    // whatever the server's start-up code gives an absent setting (set_default_values, as Server::setup runs it)
+    let absent = c.credentials.is_none() && (c.origins.len() + c.methods.len() + c.target as usize) % 3 != 0;
+    set("RWS_CONFIG_CORS_ALLOW_CREDENTIALS", if absent { None } else { Some(c.credentials.map(|b| b.to_string()).unwrap_or_default()) });
     set("RWS_CONFIG_CORS_MAX_AGE", Some(c.max_age.clone()));
+    crate::entry_point::set_default_values();
 }
 
 fn request_of(c: &Case) -> Request {
